@@ -12,7 +12,7 @@
 (*                       Input / Output                                    *)
 (* over small abstract leaf domains, INCLUDING the code's truthiness tests.*)
 (*                                                                         *)
-(* One TLC state = one abstract instance (variable x, stuttering Next).    *)
+(* One TLC state = one abstract instance (variable inst, stuttering Next).    *)
 (* Model values of leaves are string tokens:                               *)
 (*   optional str : "absent" (None) | "empty" ("") | "val"                 *)
 (*   required str : "rempty" ("") | "val"                                  *)
@@ -29,7 +29,7 @@
 EXTENDS Naturals, Sequences, FiniteSets, TLC, Json
 
 CONSTANT Slices      \* set of slice names to enumerate (see Domain)
-VARIABLE x           \* [cls |-> class name, slice |-> slice name, v |-> abstract instance]
+VARIABLE inst        \* [cls |-> class name, slice |-> slice name, v |-> abstract instance]
 
 OptStr  == {"absent", "empty", "val"}
 ReqStr  == {"rempty", "val"}
@@ -528,12 +528,171 @@ Sigs(x) == LET a == AllLost(x) IN
    \cup One(~OnlyKnown(x), "UNEXPECTED")
 
 (* INVARIANTS *)
-Inv_LosslessOrKnown == Lossless(x) \/ Known(x)
-Inv_UpdateCarriesOptions == UpdateCarriesOptions(x)
-Inv_KnownExact == LET l == Losses(x) e == Expected(x) IN \A k \in Kinds : l[k] = e[k]   \* the named scenarios characterise the losses exactly
+Inv_LosslessOrKnown == Lossless(inst) \/ Known(inst)
+Inv_UpdateCarriesOptions == UpdateCarriesOptions(inst)
+Inv_KnownExact == LET l == Losses(inst) e == Expected(inst) IN \A k \in Kinds : l[k] = e[k]   \* the named scenarios characterise the losses exactly
 (* probes: each must be VIOLATED, i.e. the named scenario is still reachable in the transcription *)
-Probe_NoContextDetailsDropped == "context-details-dropped" \notin Sigs(x)
-Probe_NoEpoch0Timestamp       == "epoch0-timestamp" \notin Sigs(x)
-Probe_NoMsRounding            == "ms-rounding" \notin Sigs(x)
-Probe_NoFarFutureDrift        == "far-future-us-drift" \notin Sigs(x)
-Probe_NothingLost             == Lossless(x)
+Probe_NoContextDetailsDropped == "context-details-dropped" \notin Sigs(inst)
+Probe_NoEpoch0Timestamp       == "epoch0-timestamp" \notin Sigs(inst)
+Probe_NoMsRounding            == "ms-rounding" \notin Sigs(inst)
+Probe_NoFarFutureDrift        == "far-future-us-drift" \notin Sigs(inst)
+Probe_NothingLost             == Lossless(inst)
+
+-----------------------------------------------------------------------------
+(* DOMAIN.  The codecs treat every field independently, so the instance space is covered by slices:
+   every enum combination; every presence/emptiness vector of the scalar fields; every nested object with
+   its full leaf domain on its own; and the presence vectors of all nested objects together (reduced leaves). *)
+Inst(c, s, V) == {[cls |-> c, slice |-> s, f |-> "", v |-> v] : v \in V}
+
+UpdBase == [operation_id |-> "val", operation_type |-> "STEP", action |-> "START", parent_id |-> "absent", name |-> "absent",
+            sub_type |-> "absent", payload |-> "absent", error |-> NoErr, context_options |-> NoCtxO, step_options |-> NoStepO,
+            wait_options |-> NoWaitO, callback_options |-> NoCbO, chained_invoke_options |-> NoInvO]
+NoOpts == [context_options |-> NoCtxO, step_options |-> NoStepO, wait_options |-> NoWaitO, callback_options |-> NoCbO,
+           chained_invoke_options |-> NoInvO]
+OptCombos == {NoOpts}
+   \cup {[NoOpts EXCEPT !.context_options = o] : o \in CtxODom} \cup {[NoOpts EXCEPT !.step_options = o] : o \in StepODom}
+   \cup {[NoOpts EXCEPT !.wait_options = o] : o \in WaitODom} \cup {[NoOpts EXCEPT !.callback_options = o] : o \in CbODom}
+   \cup {[NoOpts EXCEPT !.chained_invoke_options = o] : o \in InvODom}
+   \cup {[context_options |-> [p |-> TRUE, replay_children |-> "T"], step_options |-> [p |-> TRUE, next_attempt_delay_seconds |-> "pos"],
+          wait_options |-> [p |-> TRUE, wait_seconds |-> "pos"],
+          callback_options |-> [p |-> TRUE, timeout_seconds |-> "pos", heartbeat_timeout_seconds |-> "pos"],
+          chained_invoke_options |-> [p |-> TRUE, function_name |-> "val", tenant_id |-> "val"]],
+         [context_options |-> [p |-> TRUE, replay_children |-> "F"], step_options |-> [p |-> TRUE, next_attempt_delay_seconds |-> "zero"],
+          wait_options |-> [p |-> TRUE, wait_seconds |-> "zero"],
+          callback_options |-> [p |-> TRUE, timeout_seconds |-> "zero", heartbeat_timeout_seconds |-> "zero"],
+          chained_invoke_options |-> [p |-> TRUE, function_name |-> "rempty", tenant_id |-> "empty"]]}
+UpdEnum == {[UpdBase EXCEPT !.operation_type = t, !.action = a, !.sub_type = s] : t \in Types, a \in Actions, s \in SubTypes \cup {"absent"}}
+UpdErr  == {[UpdBase EXCEPT !.error = e, !.payload = pl] : e \in ErrFull, pl \in OptStr}
+UpdPres == {[UpdBase EXCEPT !.operation_id = i, !.parent_id = pa, !.name = n, !.payload = pl, !.error = e, !.sub_type = s,
+                            !.context_options = oc.context_options, !.step_options = oc.step_options, !.wait_options = oc.wait_options,
+                            !.callback_options = oc.callback_options, !.chained_invoke_options = oc.chained_invoke_options]
+            : i \in ReqStr, pa \in OptStr, n \in OptStr, pl \in OptStr, e \in ErrSmall, s \in {"absent", "Map"}, oc \in OptCombos}
+
+OpBase == [operation_id |-> "val", operation_type |-> "STEP", status |-> "SUCCEEDED", parent_id |-> "absent", name |-> "absent",
+           start_timestamp |-> "absent", end_timestamp |-> "absent", sub_type |-> "absent", execution_details |-> NoExec,
+           context_details |-> NoCtx, step_details |-> NoStep, wait_details |-> NoWait, callback_details |-> NoCb,
+           chained_invoke_details |-> NoInv]
+OpEnum == {[OpBase EXCEPT !.operation_type = t, !.status = st, !.sub_type = s] : t \in Types, st \in Statuses, s \in SubTypes \cup {"absent"}}
+OpHead == {[OpBase EXCEPT !.operation_id = i, !.parent_id = pa, !.name = n, !.start_timestamp = a, !.end_timestamp = b, !.sub_type = s]
+           : i \in ReqStr, pa \in OptStr, n \in OptStr, a \in TsDom, b \in TsDom, s \in {"absent", "Step"}}
+ExecDom == [p : {TRUE}, input_payload : OptStr]
+CtxDom  == [p : {TRUE}, replay_children : Bools, result : OptStr, error : ErrFull]
+StepDom == [p : {TRUE}, attempt : Ints, next_attempt_timestamp : TsDom, result : OptStr, error : ErrFull]
+WaitDom == [p : {TRUE}, scheduled_end_timestamp : TsDom]
+CbDom   == [p : {TRUE}, callback_id : ReqStr, result : OptStr, error : ErrFull]
+InvDom  == [p : {TRUE}, result : OptStr, error : ErrFull]
+OpDet == {[OpBase EXCEPT !.execution_details = d] : d \in ExecDom} \cup {[OpBase EXCEPT !.context_details = d] : d \in CtxDom}
+         \cup {[OpBase EXCEPT !.step_details = d] : d \in StepDom} \cup {[OpBase EXCEPT !.wait_details = d] : d \in WaitDom}
+         \cup {[OpBase EXCEPT !.callback_details = d] : d \in CbDom} \cup {[OpBase EXCEPT !.chained_invoke_details = d] : d \in InvDom}
+ExecR == {NoExec, [p |-> TRUE, input_payload |-> "absent"], [p |-> TRUE, input_payload |-> "val"]}
+CtxR  == {NoCtx, [p |-> TRUE, replay_children |-> "F", result |-> "absent", error |-> NoErr],
+          [p |-> TRUE, replay_children |-> "T", result |-> "val", error |-> ErrFullV]}
+StepR == {NoStep, [p |-> TRUE, attempt |-> "zero", next_attempt_timestamp |-> "absent", result |-> "absent", error |-> NoErr],
+          [p |-> TRUE, attempt |-> "pos", next_attempt_timestamp |-> "aligned", result |-> "val", error |-> ErrFullV],
+          [p |-> TRUE, attempt |-> "zero", next_attempt_timestamp |-> "epoch0", result |-> "empty", error |-> ErrAllNone]}
+WaitR == {NoWait} \cup [p : {TRUE}, scheduled_end_timestamp : {"absent", "aligned", "epoch0"}]
+CbR   == {NoCb, [p |-> TRUE, callback_id |-> "val", result |-> "absent", error |-> NoErr],
+          [p |-> TRUE, callback_id |-> "rempty", result |-> "empty", error |-> ErrAllNone],
+          [p |-> TRUE, callback_id |-> "val", result |-> "val", error |-> ErrFullV]}
+InvR  == {NoInv, [p |-> TRUE, result |-> "absent", error |-> NoErr], [p |-> TRUE, result |-> "val", error |-> ErrFullV],
+          [p |-> TRUE, result |-> "empty", error |-> ErrAllNone]}
+OpCombo == {[OpBase EXCEPT !.start_timestamp = a, !.execution_details = e, !.context_details = c, !.step_details = s,
+                           !.wait_details = w, !.callback_details = cb, !.chained_invoke_details = i]
+            : a \in {"absent", "epoch0", "subms"}, e \in ExecR, c \in CtxR, s \in StepR, w \in WaitR, cb \in CbR, i \in InvR}
+
+OpArch == {OpBase,
+           [OpBase EXCEPT !.operation_type = "EXECUTION", !.status = "STARTED", !.start_timestamp = "epoch0",
+                          !.execution_details = [p |-> TRUE, input_payload |-> "val"]],
+           [OpBase EXCEPT !.operation_type = "CONTEXT", !.sub_type = "Map",
+                          !.context_details = [p |-> TRUE, replay_children |-> "T", result |-> "val", error |-> ErrFullV]],
+           [OpBase EXCEPT !.name = "val", !.start_timestamp = "subms", !.sub_type = "Step",
+                          !.step_details = [p |-> TRUE, attempt |-> "pos", next_attempt_timestamp |-> "aligned", result |-> "val", error |-> ErrFullV]],
+           [OpBase EXCEPT !.operation_type = "WAIT", !.parent_id = "val", !.end_timestamp = "tzoff",
+                          !.wait_details = [p |-> TRUE, scheduled_end_timestamp |-> "unlucky"]]}
+OpSeqs == {<<>>} \cup {<<a>> : a \in OpArch} \cup {<<a, b>> : a \in OpArch, b \in OpArch}
+OpSeqs1 == {<<>>} \cup {<<a>> : a \in OpArch}
+InDom == [durable_execution_arn : ReqStr, checkpoint_token : ReqStr,
+          initial_execution_state : [operations : OpSeqs, next_marker : {"empty", "val"}]]
+OutDom == [status : InvStatuses, result : OptStr, error : ErrFull]
+StateSrc == [ops : OpSeqs, opsKey : {"list"}, marker : {"nokey", "none", "empty", "val"}, token : {"nokey"}, nes : {"dict"}]
+            \cup [ops : {<<>>}, opsKey : {"nokey"}, marker : {"nokey", "none", "empty", "val"}, token : {"nokey"}, nes : {"dict"}]
+CkptSrc == [ops : {<<>>}, opsKey : {"nokey"}, marker : {"nokey"}, token : {"nokey", "rempty", "val"}, nes : {"nokey", "emptydict"}]
+           \cup [ops : OpSeqs1, opsKey : {"list", "nokey"}, marker : {"nokey", "none", "empty", "val"}, token : {"nokey", "rempty", "val"}, nes : {"dict"}]
+
+IdArgs == {[NoArgs EXCEPT !.operation_id = i, !.parent_id = pa, !.name = n] : i \in ReqStr, pa \in OptStr, n \in OptStr}
+Payloads == {"empty", "val"}
+Factories == {"create_callback", "create_context_start", "create_context_succeed", "create_context_fail", "create_execution_succeed",
+              "create_execution_fail", "create_step_succeed", "create_step_fail", "create_step_start", "create_step_retry",
+              "create_invoke_start", "create_wait_for_condition_start", "create_wait_for_condition_succeed",
+              "create_wait_for_condition_retry", "create_wait_for_condition_fail", "create_wait_start"}
+FactoryArgs(f) ==
+  CASE f = "create_callback" -> {[a EXCEPT !.callback_options = c] : a \in IdArgs, c \in CbODom}
+    [] f = "create_context_start" -> {[a EXCEPT !.sub_type = s] : a \in IdArgs, s \in SubTypes}
+    [] f = "create_context_succeed" -> {[a EXCEPT !.sub_type = s, !.payload = pl, !.context_options = c]
+                                        : a \in IdArgs, s \in SubTypes, pl \in Payloads, c \in CtxODom \cup {NoCtxO}}
+    [] f = "create_context_fail" -> {[a EXCEPT !.sub_type = s, !.error = e] : a \in IdArgs, s \in SubTypes, e \in ErrGiven}
+    [] f = "create_execution_succeed" -> {[NoArgs EXCEPT !.payload = pl] : pl \in Payloads}
+    [] f = "create_execution_fail" -> {[NoArgs EXCEPT !.error = e] : e \in ErrPresent}
+    [] f \in {"create_step_succeed", "create_wait_for_condition_succeed"} -> {[a EXCEPT !.payload = pl] : a \in IdArgs, pl \in Payloads}
+    [] f \in {"create_step_fail", "create_wait_for_condition_fail"} -> {[a EXCEPT !.error = e] : a \in IdArgs, e \in ErrGiven}
+    [] f \in {"create_step_start", "create_wait_for_condition_start"} -> IdArgs
+    [] f = "create_step_retry" -> {[a EXCEPT !.error = e, !.delay = d] : a \in IdArgs, e \in ErrGiven, d \in Ints}
+    [] f = "create_wait_for_condition_retry" -> {[a EXCEPT !.payload = pl, !.delay = d] : a \in IdArgs, pl \in Payloads, d \in Ints}
+    [] f = "create_invoke_start" -> {[a EXCEPT !.payload = pl, !.chained_invoke_options = o] : a \in IdArgs, pl \in Payloads, o \in InvODom}
+    [] f = "create_wait_start" -> {[a EXCEPT !.wait_options = o] : a \in IdArgs, o \in WaitODom}
+
+SliceSet(s) ==
+  CASE s = "err" -> Inst("ErrorObject", s, ErrPresent)
+    [] s = "opts" -> Inst("ContextOptions", s, CtxODom) \cup Inst("StepOptions", s, StepODom) \cup Inst("WaitOptions", s, WaitODom)
+                     \cup Inst("CallbackOptions", s, CbODom) \cup Inst("ChainedInvokeOptions", s, InvODom)
+    [] s = "upd_enum" -> Inst("OperationUpdate", s, UpdEnum)
+    [] s = "upd_err" -> Inst("OperationUpdate", s, UpdErr)
+    [] s = "upd_pres" -> Inst("OperationUpdate", s, UpdPres)
+    [] s = "op_enum" -> Inst("Operation", s, OpEnum)
+    [] s = "op_head" -> Inst("Operation", s, OpHead)
+    [] s = "op_det" -> Inst("Operation", s, OpDet)
+    [] s = "op_combo" -> Inst("Operation", s, OpCombo)
+    [] s = "out" -> Inst("InvocationOutput", s, OutDom)
+    [] s = "inp" -> Inst("InvocationInput", s, InDom)
+    [] s = "decode" -> Inst("StateOutput", s, StateSrc) \cup Inst("CheckpointUpdatedExecutionState", s, StateSrc)
+                       \cup Inst("CheckpointOutput", s, CkptSrc)
+    [] s = "factory" -> UNION {{[cls |-> "Factory", slice |-> s, f |-> f, v |-> a] : a \in FactoryArgs(f)} : f \in Factories}
+AllSlices == {"err", "opts", "upd_enum", "upd_err", "upd_pres", "op_enum", "op_head", "op_det", "op_combo", "out", "inp", "decode", "factory"}
+Domain == UNION {SliceSet(s) : s \in Slices}
+
+-----------------------------------------------------------------------------
+(* dump: one JSON line per instance = the instance, the wire forms and the model's prediction *)
+Sparse(f, drop) == LET ks == {k \in DOMAIN f : f[k] \notin drop} IN [k \in ks |-> f[k]]
+Diff(f, g)      == LET ks == {k \in DOMAIN f : f[k] # g[k]} IN [k \in ks |-> f[k]]
+XFlat(x) == LET v == x.v IN
+  CASE x.cls = "ErrorObject" -> ErrLeaves("", v)
+    [] x.cls = "ContextOptions" -> CtxOLeaves("", v) [] x.cls = "StepOptions" -> StepOLeaves("", v)
+    [] x.cls = "WaitOptions" -> WaitOLeaves("", v) [] x.cls = "CallbackOptions" -> CbOLeaves("", v)
+    [] x.cls = "ChainedInvokeOptions" -> InvOLeaves("", v)
+    [] x.cls = "OperationUpdate" -> UpdFlat(v) [] x.cls = "Operation" -> OpFlat("", v)
+    [] x.cls = "InvocationOutput" -> OutFlat(v) [] x.cls = "InvocationInput" -> InFlat(v)
+    [] x.cls = "Factory" -> ArgsFlat(v)
+    [] OTHER -> SrcFlat(v)
+WireOf(x) == LET v == x.v IN
+  CASE x.cls = "ErrorObject" -> WErrFlat("", ErrToDict(v))
+    [] x.cls = "ContextOptions" -> WCtxOFlat("", CtxOToDict(v)) [] x.cls = "StepOptions" -> WStepOFlat("", StepOToDict(v))
+    [] x.cls = "WaitOptions" -> WWaitOFlat("", WaitOToDict(v)) [] x.cls = "CallbackOptions" -> WCbOFlat("", CbOToDict(v))
+    [] x.cls = "ChainedInvokeOptions" -> WInvOFlat("", InvOToDict(v))
+    [] x.cls = "OperationUpdate" -> WUpdFlat(UpdToDict(v)) [] x.cls = "Operation" -> WOpFlat("", OpToDict(v))
+    [] x.cls = "InvocationOutput" -> WOutFlat(OutToDict(v)) [] x.cls = "InvocationInput" -> WInFlat(InToDict(v, OpToDict))
+    [] x.cls = "Factory" -> WUpdFlat(UpdToDict(Create(x.f, v)))
+    [] x.cls = "CheckpointOutput" -> WCkptFlat(CkptWire(v))
+    [] OTHER -> WStateFlat("", StateWire(v))
+JWireOf(x) ==
+  CASE x.cls = "Operation" -> WOpFlat("", OpToJsonDict(x.v))
+    [] x.cls = "InvocationInput" -> WInFlat(InToDict(x.v, OpToJsonDict))
+    [] OTHER -> WireOf(x)
+Row(x) == LET l == Losses(x) w == WireOf(x) IN
+  [cls |-> x.cls, slice |-> x.slice, f |-> x.f, x |-> Sparse(XFlat(x), {"absent", "noobj", "na"}),
+   wire |-> Sparse(w, {"nokey"}), jwire |-> Diff(JWireOf(x), w),
+   dict |-> l.dict, json |-> l.json, idict |-> l.idict, ijson |-> l.ijson, carry |-> l.carry, sigs |-> Sigs(x)]
+
+Init     == inst \in Domain
+InitDump == inst \in Domain /\ PrintT(ToJson(Row(inst)))
+Next     == UNCHANGED inst
+=============================================================================
